@@ -281,7 +281,9 @@ def amdpLine : P String := do
   let kind ← P.tok; let S1 ← P.nat; let A ← P.nat
   let evs ← P.list evP; P.bar
   let S' ← P.nat; let A' ← P.nat; let disc ← P.x
-  let T ← tab3 A' S' S'; let R ← tab2 S' A'; let pd ← P.x; P.eof
+  let T ← tab3 A' S' S'; let R ← tab2 S' A'; let pd ← P.x; P.bar
+  let S0 ← P.nat; let buckets ← P.nat
+  let bs ← P.list (do let b ← P.rep P.q S0; let i ← P.nat; pure (b, i)); P.eof
   let sparse := kind == "sparse"
   let comp := if sparse then "AMDP::discretizeSparse" else "AMDP::discretizeDense"
   let v : Verdict := { tag := "amdp_" ++ kind }
@@ -291,6 +293,10 @@ def amdpLine : P String := do
   let v := v.failIf (!(T.all fun m => m.all (fun row => rowDistB eps row && row.all (fun x => match x with | .fin q => decide (0 ≤ q) | _ => false))))
              s!"{comp} row_not_distribution"
   let v := v.failIf (!(R.all fun row => row.all isFin)) s!"{comp} reward_not_finite"
+  -- the discretizer sends every belief inside the augmented state space, to a state whose base component is the
+  -- belief's most likely state (theorem discretize_lt covers the arithmetic; the entropy term is not modelled)
+  let v := v.failIf (bs.any (fun (_, i) => decide (i ≥ S0 * buckets))) s!"AMDP::makeDiscretizer index_out_of_range"
+  let v := v.diffIf (bs.any (fun (b, i) => i % S0 != argmaxBelief b)) s!"AMDP::makeDiscretizer base_state"
   -- correspondence with the modelled accumulate-and-normalise phase
   let guarded := AITB.Gen.Guards.amdpDenseGuardedDivide
   let v := v.diffIf (!(all3 A S1 S1 (fun a s s1 => xclose (.fin (amdpT evs S1 a s s1)) (get3 T a s s1)))) s!"{comp} transitions"
